@@ -75,4 +75,23 @@ PROPS = {
         "level_text": "Machine-checked Lean 4 theorems: in every reachable state of the model (any history incl. failures, cancellations, takes, retains, resizes, close) in which no operation is in progress except callers blocked in get(), the tuple status() computes equals (max_size, idle+out, idle, number of blocked callers) (C11_exact_at_rest); in every reachable state the tuple is plausible: size <= objects existing or being created, available <= size, waiting <= callers inside get(), no counter wrapped, size <= max_size + shrink residue and size <= max_size if never resized (C11_plausible, C11_size_le_max_unless_resized). Tied to the code by the per-step correspondence run (status events are part of the compared event stream) and a ground-truth monitor that recomputes the expected figures from the harness's own object/operation bookkeeping, with quiescent points inserted by the generator.",
         "level_note": "`users` is read with Relaxed ordering while the slots mutex is held; the model treats status() as one atomic step (per-location coherence of a single counter). max_size ground truth for the monitor = the resize that took the mutex last. Axioms: propext, Classical.choice, Quot.sound only.",
     },
+    "C10": {
+        "title": "Timeouts, non-blocking mode and missing runtimes behave as documented",
+        "modules": ["DeadpoolVerif.Props.C10"],
+        "theorems": [
+            "DeadpoolVerif.C10_zero_wait_never_waits", "DeadpoolVerif.C10_zero_wait_decides",
+            "DeadpoolVerif.C10_wait_deadline", "DeadpoolVerif.C10_deadline_needs_timeout",
+            "DeadpoolVerif.C10_create_timeout_releases", "DeadpoolVerif.C10_recycle_timeout_is_reject",
+            "DeadpoolVerif.C10_no_runtime", "DeadpoolVerif.C10_build", "DeadpoolVerif.C10_no_timeout_recycle",
+            "DeadpoolVerif.run_acct", "DeadpoolVerif.run_link",
+        ],
+        "projection": BASE + SEM + CNT + ["idle", "out", "live", "ev"],
+        "extra": ["table", "build-table"],
+        "profiles": {"quick": [("timeouts", 500), ("timeouts-nr", 300)],
+                     "thorough": [("timeouts", 10000), ("timeouts-nr", 6000), ("cancel", 3000)]},
+        "monitor": "C10",
+        "design_ref": "DESIGN.md §6 C10",
+        "level_text": "Machine-checked Lean 4 theorems about the model's get(): a zero-wait get is never suspended waiting for a slot in any reachable state (C10_zero_wait_never_waits, invariant) and its acquisition step decides at once between Closed / Timeout(Wait) / slot (C10_zero_wait_decides); when a finite wait deadline passes, an already assigned slot wins, otherwise Timeout(Wait) and the waiter is un-registered (C10_wait_deadline); a create timeout yields Timeout(Create) and the next unwind step releases the slot; a recycle timeout is exactly a rejected object; without runtime per-call recycle / finite wait / create timeouts give NoRuntimeSpecified without touching semaphore, queue or objects, and build() fails iff a timeout is configured without runtime (C10_no_runtime, C10_build); Timeout(Recycle) is never produced. Deadline orderings are the interleavings of the `deadline` action with the others, so the theorems cover every ordering. Tied to the code by the correspondence run, which here includes an EXHAUSTIVE table ({none,zero,finite}^3 x runtime x 11 situation/ordering variants = 594 histories on a paused tokio clock, plus all 54 build() combinations) and an independent cause-based result oracle.",
+        "level_note": "tokio's timer (fires after the deadline, inner future polled first) is trusted and validated by the table run on a paused clock. The unmanaged pool's single timeout is covered under C05/C12's model (see there). Axioms: propext, Classical.choice, Quot.sound only. The recycle-timeout-without-runtime defect of the pinned tree was repaired (fix: 526ef3d).",
+    },
 }
